@@ -296,6 +296,28 @@ def field_name(e):
     return None
 
 
+def check_closed_monotonic(rep, fl, rule="R12.2"):
+    """is_closed only ever goes from false to true: every store to a field named is_closed writes the
+    constant true (a roll-back on an error path re-opens a cache whose workers are already gone)."""
+    facts = fl.facts
+    other = "r#async" if fl.name == "sync" else "::sync::"
+    bad = []
+    n = 0
+    for b in facts.bodies:
+        if not user_code(b) or other in b.spath or "::test" in b.spath:
+            continue
+        for bi, t in b.calls():
+            c = b.callee_of(t)
+            if callee_matches(c, "Atomic::store") or callee_matches(c, "Atomic::swap") or callee_matches(c, "Atomic::fetch_and") or callee_matches(c, "Atomic::compare_exchange") or callee_matches(c, "Atomic::fetch_xor"):
+                a = [norm(x) for x in b.call_args(t)]
+                if a and a[0][0] == "field" and a[0][2] == "is_closed":
+                    n += 1
+                    val = a[2] if callee_matches(c, "Atomic::compare_exchange") and len(a) > 2 else (a[1] if len(a) > 1 else None)
+                    if not (callee_matches(c, "Atomic::store") or callee_matches(c, "Atomic::swap") or callee_matches(c, "Atomic::compare_exchange")) or val != ("const", 1, "bool"):
+                        bad.append("%s: %s(is_closed, %s)" % (b.spath, short(c), show(val) if val else "?"))
+    rep.check(not bad and n >= 2, rule, fl, "is_closed", "monotonic", "is_closed is only ever set to true (%d stores)" % n, "is_closed can be reset: %s" % "; ".join(bad))
+
+
 def check_unwraps(rep, fl, rule="R12.4"):
     """No public cache operation unwraps a Result whose Err is constructible."""
     facts = fl.facts
@@ -329,6 +351,7 @@ def check_C12(rep, fl):
     props_locks.check_lock_order(rep, fl, rule="R12.5")
     check_closed_first(rep, fl)
     check_close_sequence(rep, fl)
+    check_closed_monotonic(rep, fl)
     check_worker_exit(rep, fl)
     check_recv_loops(rep, fl)
     check_unwraps(rep, fl)
@@ -495,10 +518,20 @@ def drain_is_exhaustive(body, drain_bi, drain_t):
                 continue
             n_exit += 1
             failed = False
+            t2 = body.term(s2)
+            if t2 is not None and t2["k"] == "unreachable":
+                n_exit -= 1
+                continue
             for tgt, atom, pol in edge_literals(body, b):
                 if tgt != s2 or atom is None:
                     continue
                 a = norm(body.expand(atom))
+                # a test on the error value of the receive (`Err(TryRecvError::Empty)`: the select's default arm),
+                # or the `?` that propagates the receive's error
+                if mentions(a, ("downcast", res, "Err")) and pol:
+                    failed = True
+                if a[0] == "variant" and a[2] == "Break" and pol and mentions(a, res):
+                    failed = True
                 p2 = pol
                 while a[0] == "un" and a[1] == "Not":
                     a = a[2]
@@ -653,6 +686,9 @@ def check_C10(rep, fl):
     check_cleaner(rep, fl)
     # "removed ones are gone once wait() returns": the Delete marker is ordered behind the sets and cannot be lost
     check_remove_pair(rep, fl)
+    # "everything accepted before is applied": applying an item cannot fail half-way (a `?` that fires skips the rest
+    # of the item while the marker behind it is still released)
+    check_no_err_between(rep, fl)
 
 
 # ----------------------------------------------------------------------------------------
@@ -669,6 +705,10 @@ def check_cleaner(rep, fl, rule="R11.1"):
             hi += [(x, c) for c in calls_to(x, fl.cleaner + "::handle_item")]
     ok = len(rs) >= 1 and cl.in_loop(rs[0][0]) and len(hi) == 1
     rep.check(ok, rule, fl, cl, "drain loop", "the cleaner receives from the insert buffer in a loop and hands every item to its handle_item", "the cleaner does not drain the insert buffer item by item")
+    if rs:
+        okx = all(drain_is_exhaustive(cl, bi_, t_) for bi_, t_ in rs if cl.in_loop(bi_)) if fl.name != "async" else cleaner_async_exhaustive(cl, rs)
+        rep.check(okx, rule, fl, cl, "drains to the end", "the cleaner stops only when the buffer is empty (or the receive failed)",
+                  "the cleaner can stop while items are still buffered (a bounded loop, an early exit): what is left is applied after the clear and survives it")
     h = facts.body(fl.cleaner + "::handle_item")
     ev = calls_to(h, "CacheCallback::on_evict")
     ok = len(ev) == 1
@@ -711,6 +751,20 @@ def clear_handler(fl):
     if b is None:
         raise AnchorMissing("no %s::handle_clear_event" % fl.processor)
     return b
+
+
+def cleaner_async_exhaustive(cl, rs):
+    """futures::select! with a `default` arm: the loop around the receive may be left only from the default arm
+    (nothing ready) or when the receive failed; there is no other way out (no counter, no `break` after N items).
+    Structurally: the loop contains no Iterator::next call and every exit edge is a `return`-bound edge."""
+    bi = [b for b, t in rs if cl.in_loop(b)]
+    if not bi:
+        return False
+    loop = {b for b in cl.live_blocks() if bi[0] in cl.reachable(b) and b in cl.reachable(bi[0])}
+    for b, t in cl.calls():
+        if b in loop and callee_matches(cl.callee_of(t), "Iterator::next"):
+            return False
+    return True
 
 
 def check_clear(rep, fl, rule="R11.1"):
@@ -1111,3 +1165,5 @@ def check_C06(rep, fl):
     props_store.check_sweeper(rep, fl)
     props_store.check_selectors(rep, fl, rule="R02.1")
     check_clear(rep, fl, rule="R06.4")
+    # an admitted (charged) entry is really stored: store.try_insert inserts whenever the key is absent
+    props_store.check_store_writes(rep, fl)
